@@ -596,3 +596,6 @@ def stmts_of_block(node):
         if isinstance(blk, list) and st in blk:
             return blk
     return [st]
+
+# added rules (appended to the explanation the evidence file carries)
+EXPLANATION += (" " + 'Added during the build (DESIGN.md 4.31, second table): SimpleComparison.target by abstract execution on 48 placeholder cases; the rounding rule R02.2 of C02 is shared (decimal constants in comparisons).')
